@@ -14,11 +14,19 @@ Section PathReplay.
   Notation ctx := (ctx Tok MS BS Err).
   Notation res := (res Tok MS BS Err).
 
-  (* an invariant of the matcher state, and what a successful match from such a state tells about the token *)
+  (* the matcher: an invariant of its state kept by successful matches; failed and raising matches, and
+     successful matches of the `quiet` kinds (everything a look-ahead or a guarded test can match), leave the
+     state as it is; what a successful match tells about state before, token and state after *)
   Variable MI : MS -> Prop.
-  Hypothesis HI : forall k m t, MI m -> match matchf P k m t with MR _ _ m' | MRaise _ _ m' => MI m' end.
-  Variable tokP : kind -> Tok -> Prop.
-  Hypothesis Hmatch : forall k m t t' m', MI m -> matchf P k m t = MR true t' m' -> tokP k t'.
+  Hypothesis HI : forall k m t t' m', MI m -> matchf P k m t = MR true t' m' -> MI m'.
+  Variable quiet : kind -> bool.
+  Hypothesis Hfail : forall k m t t' m', matchf P k m t = MR false t' m' -> m' = m.
+  Hypothesis Hraise : forall k m t e t' m', matchf P k m t = MRaise e t' m' -> m' = m.
+  Hypothesis Hquiet : forall k m t t' m', quiet k = true -> matchf P k m t = MR true t' m' -> m' = m.
+  Hypothesis Hla : forall h k, In h (lookaheads P) -> In k (la_expected h ++ la_skip h) -> quiet k = true.
+  Hypothesis Hguard : forall x y, In x (table P) -> In y (s_tests x) -> t_guard y <> None -> quiet (t_kind y) = true.
+  Variable tokP : kind -> MS -> Tok -> MS -> Prop.
+  Hypothesis Hmatch : forall k m t t' m', MI m -> matchf P k m t = MR true t' m' -> tokP k m t' m'.
   Definition mtok' (r : mres Tok MS Err) : Tok := match r with MR _ t _ | MRaise _ t _ => t end.
   Hypothesis Heof : forall k m t, is_eof P (mtok' (matchf P k m t)) = is_eof P t.
 
@@ -33,12 +41,12 @@ Section PathReplay.
     | p :: r => match bop t p b with Some b' => bops t r b' | None => None end
     end.
 
-  (* the path taken so far: matched token and test fired, oldest first *)
+  (* the path taken so far: matched token and test fired, oldest first; the last index is the matcher state *)
   Definition path := list (Tok * test).
-  Inductive reach (b1 : BS) : nat -> BS -> path -> Prop :=
-    | reach_start : reach b1 (start_state P) b1 []
-    | reach_step s b l x y t b' : reach b1 s b l -> In x (table P) -> s_id x = s -> In y (s_tests x) ->
-        tokP (t_kind y) t -> bops t (t_prods y) b = Some b' -> reach b1 (t_tgt y) b' (l ++ [(t, y)]).
+  Inductive reach (b1 : BS) (m1 : MS) : nat -> BS -> path -> MS -> Prop :=
+    | reach_start : reach b1 m1 (start_state P) b1 [] m1
+    | reach_step s b l m x y t b' m' : reach b1 m1 s b l m -> In x (table P) -> s_id x = s -> In y (s_tests x) ->
+        tokP (t_kind y) m t m' -> bops t (t_prods y) b = Some b' -> reach b1 m1 (t_tgt y) b' (l ++ [(t, y)]) m'.
 
   (* the builder events of a path *)
   Definition step_events (ty : Tok * test) : list (ev Tok) :=
@@ -50,12 +58,12 @@ Section PathReplay.
   Definition ends (s : nat) : Prop :=
     exists x y, In x (table P) /\ In y (s_tests x) /\ t_kind y = KEOF /\ t_tgt y = s.
 
-  (* frame: builder state and log untouched, a non-empty error list stays non-empty, the matcher invariant is kept *)
+  (* frame: builder state, log and matcher state untouched, a non-empty error list stays non-empty *)
   Definition fb (c0 c : ctx) : Prop :=
-    bs c = bs c0 /\ log c = log c0 /\ (errs c0 <> [] -> errs c <> []) /\ (MI (ms c0) -> MI (ms c)).
+    bs c = bs c0 /\ log c = log c0 /\ (errs c0 <> [] -> errs c <> []) /\ ms c = ms c0.
   Lemma fb_refl c : fb c c. Proof. repeat split; auto. Qed.
   Lemma fb_same c0 c c' : fb c0 c -> bs c' = bs c -> log c' = log c -> errs c' = errs c -> ms c' = ms c -> fb c0 c'.
-  Proof. intros (H1 & H2 & H3 & H4) B L E M. split; [congruence | split; [congruence | split; [rewrite E; auto | rewrite M; auto]]]. Qed.
+  Proof. intros (H1 & H2 & H3 & H4) B L E M. split; [congruence | split; [congruence | split; [rewrite E; auto | congruence]]]. Qed.
   Ltac fbs := cbv beta in *; match goal with H : fb _ _ |- fb _ _ => solve [eapply fb_same; [exact H | reflexivity | reflexivity | reflexivity | reflexivity]] end.
 
   Lemma add_error_fb c0 e c : fb c0 c ->
@@ -71,42 +79,52 @@ Section PathReplay.
   Lemma read_fb c0 c : fb c0 c -> fb c0 (snd (read P c)).
   Proof. intros H. unfold read. destruct (queue c); [destruct (rest c)|]; simpl; fbs. Qed.
 
+  (* one match: a failed (or raising, in collecting mode) match keeps the frame; a successful one exposes
+     the matcher's own equation *)
   Lemma match_k_fb c0 stop k t c : fb c0 c ->
     sat (match_k P stop k t c)
-        (fun r c' => fb c0 c' /\ is_eof P (snd r) = is_eof P t
-                     /\ (fst r = true -> (is_eof P t = true -> k = KEOF) /\ (MI (ms c0) -> tokP k (snd r))))
+        (fun r c' => is_eof P (snd r) = is_eof P t /\
+           if fst r
+           then bs c' = bs c0 /\ log c' = log c0 /\ (errs c0 <> [] -> errs c' <> [])
+                /\ (is_eof P t = true -> k = KEOF) /\ matchf P k (ms c0) t = MR true (snd r) (ms c')
+           else fb c0 c')
         (fun _ => True) True.
   Proof.
     intros H. unfold match_k.
     destruct (negb (kind_beq k KEOF) && is_eof P t) eqn:G; simpl.
-    { split; [exact H | split; [reflexivity | intros X; discriminate X]]. }
+    { split; [reflexivity | exact H]. }
     assert (K : is_eof P t = true -> k = KEOF).
     { intros E. rewrite E, andb_true_r in G. apply negb_false_iff in G. now apply kind_beq_eq. }
-    pose proof (Heof k (ms c) t) as He. pose proof (Hmatch k (ms c) t) as Hm. pose proof (HI k (ms c) t) as Hi.
+    pose proof (Heof k (ms c) t) as He. pose proof (Hfail k (ms c) t) as Hf. pose proof (Hraise k (ms c) t) as Hr.
     destruct H as (H1 & H2 & H3 & H4).
-    destruct (matchf P k (ms c) t) as [b t' m'|e t' m']; simpl in *.
-    - split; [repeat split; auto|]. split; [exact He|]. intros ->. split; [exact K | intros I0; eapply Hm; auto].
-    - destruct stop; simpl; auto.
+    destruct (matchf P k (ms c) t) as [b t' m'|e t' m'] eqn:M; simpl in *.
+    - split; [exact He|]. destruct b.
+      + rewrite <- H4. repeat split; auto.
+      + rewrite (Hf _ _ eq_refl). repeat split; auto.
+    - destruct stop; simpl; auto. rewrite (Hr _ _ _ eq_refl).
       eapply sat_bind; [apply (add_error_fb c0); repeat split; simpl; auto|].
-      intros [] c' [G' _]. simpl. split; [exact G' | split; [exact He | intros X; discriminate X]].
+      intros [] c' [G' _]. simpl. split; [exact He | exact G'].
   Qed.
 
-  Lemma any_match_fb c0 stop ks : forall t c, fb c0 c ->
+  Lemma any_match_fb c0 stop ks : Forall (fun k => quiet k = true) ks -> forall t c, fb c0 c ->
     sat (any_match P stop ks t c) (fun _ c' => fb c0 c') (fun _ => True) True.
   Proof.
-    induction ks as [|k ks IH]; intros t c H; simpl; [exact H|].
-    eapply sat_bind; [apply match_k_fb; exact H|]. intros [b t'] c' [G _]. simpl.
-    destruct b; simpl; [exact G|]. apply IH. exact G.
+    induction ks as [|k ks IH]; intros Q t c H; simpl; [exact H|]. inversion Q as [|k0 ks0 Qk Qs]; subst.
+    eapply sat_bind; [apply match_k_fb; exact H|]. intros [b t'] c' [_ G]. simpl in *.
+    destruct b; simpl.
+    - destruct G as (B & L & E & _ & M). pose proof (Hquiet _ _ _ _ _ Qk M) as Eq. repeat split; auto.
+    - apply IH; auto.
   Qed.
 
-  Lemma la_loop_fb c0 stop h : forall fuel c acc, fb c0 c ->
+  Lemma la_loop_fb c0 stop h : Forall (fun k => quiet k = true) (la_expected h ++ la_skip h) -> forall fuel c acc, fb c0 c ->
     sat (la_loop P fuel stop h c acc) (fun _ c' => fb c0 c') (fun _ => True) True.
   Proof.
+    intros Q. apply Forall_app in Q as [Q1 Q2].
     induction fuel as [|f IH]; intros c acc H; simpl; [exact I|].
     pose proof (read_fb c0 c H) as R. destruct (read P c) as [t c1]. simpl in R.
-    eapply sat_bind; [apply any_match_fb; exact R|].
+    eapply sat_bind; [apply any_match_fb; [exact Q1 | exact R]|].
     intros [b t'] c2 H2. simpl. destruct b; simpl; [exact H2|].
-    eapply sat_bind; [apply any_match_fb; exact H2|].
+    eapply sat_bind; [apply any_match_fb; [exact Q2 | exact H2]|].
     intros [b' t''] c3 H3. simpl. destruct b'; simpl; [|exact H3].
     apply IH. exact H3.
   Qed.
@@ -114,8 +132,9 @@ Section PathReplay.
   Lemma lookahead_fb c0 stop h c : fb c0 c ->
     sat (lookahead P stop h c) (fun _ c' => fb c0 c') (fun _ => True) True.
   Proof.
-    intros H. unfold lookahead. destruct (find_la P h); [|exact I].
-    eapply sat_bind; [apply la_loop_fb; exact H|]. intros r c1 G. simpl. fbs.
+    intros H. unfold lookahead. destruct (find_la P h) as [x|] eqn:F; [|exact I].
+    assert (Hx : In x (lookaheads P)) by (unfold find_la in F; apply find_some in F; tauto).
+    eapply sat_bind; [apply la_loop_fb; [apply Forall_forall; intros k Hk; eapply Hla; eauto | exact H]|]. intros r c1 G. simpl. fbs.
   Qed.
 
   (* one builder call: either it returned normally, or an error has been recorded *)
@@ -153,12 +172,13 @@ Section PathReplay.
 
   Section State.
     Variable b1 : BS.
+    Variable m1 : MS.
     Variable log0 : list (ev Tok).
     Definition InvR (s : nat) (c : ctx) : Prop :=
-      errs c <> [] \/ (MI (ms c) /\ exists l, reach b1 s (bs c) l /\ log c = rev (path_events l) ++ log0).
+      errs c <> [] \/ (MI (ms c) /\ exists l, reach b1 m1 s (bs c) l (ms c) /\ log c = rev (path_events l) ++ log0).
 
     Lemma InvR_fb s c c' : fb c c' -> InvR s c -> InvR s c'.
-    Proof. intros (B & L & M & Im) [H|(Ic & l & R & Hl)]; [left; auto | right; split; [auto|]; exists l; rewrite B, L; auto]. Qed.
+    Proof. intros (B & L & M & Ms) [H|(Ic & l & R & Hl)]; [left; auto | right; rewrite Ms, B, L; split; [auto|]; exists l; auto]. Qed.
 
     Lemma run_tests_reach stop x c0 e : In x (table P) -> InvR (s_id x) c0 ->
       forall tests t c, incl tests (s_tests x) -> fb c0 c -> is_eof P t = e ->
@@ -175,33 +195,36 @@ Section PathReplay.
       assert (Hy : In y (s_tests x)) by (apply Hincl; now left).
       assert (Hys : incl ys (s_tests x)) by (intros z Hz; apply Hincl; now right).
       eapply sat_bind; [apply match_k_fb; exact Hfb|].
-      intros [b t1] c1 (Hfb1 & He1 & Hk). simpl in *.
-      assert (Taken : b = true -> forall c2, fb c0 c2 ->
+      intros [b t1] c1 (He1 & Hk). simpl in *.
+      destruct b; [|apply IH; auto; congruence].
+      destruct Hk as (B1 & L1 & E1 & Hke & Mk).
+      (* the test fires from a context whose builder, log and matcher state are those after the match *)
+      assert (Taken : forall c2, bs c2 = bs c1 -> log c2 = log c1 -> ms c2 = ms c1 -> (errs c0 <> [] -> errs c2 <> []) ->
         sat (bind (exec P stop t1 (t_kind y) (t_prods y) c2) (fun _ c3 => Ok (Some (t_tgt y), t1) c3))
             (fun r c' => match fst r with
                          | Some s' => InvR s' c' /\ (e = true -> ends s')
                          | None => fb c0 c'
                          end /\ (errs c0 <> [] -> errs c' <> []))
             (fun _ => True) True).
-      { intros Hb c2 Hfb2.
+      { intros c2 B2 L2 M2 E2.
         eapply sat_bind; [apply exec_replay|]. intros _ c3 (Hr & Hl & Hm & Hms). simpl.
         split; [split|].
         - destruct Hr as [Hr|Hr]; [now left|].
-          destruct HI0 as [HI0|(Ic0 & l & HR & HL)]; [left; apply Hm, Hfb2, HI0|].
-          destruct (Hk Hb) as [Hke Ht]. specialize (Ht Ic0).
-          right. destruct Hfb2 as (B2 & L2 & _ & Im2). rewrite B2 in Hr. split; [rewrite Hms; auto|]. exists (l ++ [(t1, y)]). split.
-          + eapply reach_step; eauto.
-          + rewrite Hl, L2, HL, path_events_snoc, rev_app_distr, <- app_assoc. reflexivity.
-        - intros Et. subst e. exists x, y. repeat split; auto. apply (Hk Hb). exact Et.
-        - intros N. apply Hm. apply Hfb2. exact N. }
-      destruct b.
-      - destruct (t_guard y) as [h|].
-        + eapply sat_bind; [apply lookahead_fb; exact Hfb1|]. intros g c2 Hfb2. simpl.
-          destruct g.
-          * apply Taken; auto.
-          * apply IH; auto. congruence.
-        + apply Taken; auto.
-      - apply IH; auto. congruence.
+          destruct HI0 as [HI0|(Ic0 & l & HR & HL)]; [left; apply Hm, E2, HI0|].
+          right. rewrite Hms, M2. split; [eapply HI; eauto|]. exists (l ++ [(t1, y)]). split.
+          + eapply reach_step; eauto. rewrite B2, B1 in Hr. exact Hr.
+          + rewrite Hl, L2, L1, HL, path_events_snoc, rev_app_distr, <- app_assoc. reflexivity.
+        - intros Et. subst e. exists x, y. repeat split; auto.
+        - intros N. apply Hm. apply E2. exact N. }
+      destruct (t_guard y) as [h|] eqn:G.
+      - assert (Qk : quiet (t_kind y) = true) by (apply (Hguard x y Hx Hy); rewrite G; discriminate).
+        pose proof (Hquiet _ _ _ _ _ Qk Mk) as Eq.
+        assert (Hfb1 : fb c0 c1) by (repeat split; auto).
+        eapply sat_bind; [apply lookahead_fb; exact Hfb1|]. intros g c2 (B2 & L2 & E2 & M2). simpl.
+        destruct g.
+        + apply Taken; congruence || auto.
+        + apply IH; auto; [repeat split; auto | congruence].
+      - apply Taken; auto.
     Qed.
 
     Lemma find_state_in' s x : find_state P s = Some x -> In x (table P) /\ s_id x = s.
@@ -248,7 +271,7 @@ Section PathReplay.
   (* a normal return: the start of the document, a path to the target of an #EOF test, the end of the document;
      the interpreter's event log is exactly the events of that path *)
   Theorem path_replay stop toks m b c : MI m -> parse P stop toks m b = Ok tt c ->
-    exists b1 s b2 l, b_start P RGherkinDocument b = BOk b1 /\ reach b1 s b2 l /\ ends s
+    exists b1 s b2 l m2, b_start P RGherkinDocument b = BOk b1 /\ reach b1 m s b2 l m2 /\ ends s
                       /\ b_end P RGherkinDocument b2 = BOk (bs c)
                       /\ events c = EvS RGherkinDocument :: path_events l ++ [EvE RGherkinDocument].
   Proof.
@@ -257,9 +280,9 @@ Section PathReplay.
     pose proof (b_call_replay stop (b_start P RGherkinDocument) c0) as S1.
     destruct (b_call P stop (b_start P RGherkinDocument) c0) as [[] c1| | | |]; cbn [bind] in H; try discriminate.
     simpl in S1. destruct S1 as (S1 & L1 & _ & Ms1).
-    assert (I1 : InvR (bs c1) [EvS RGherkinDocument] (start_state P) c1).
-    { destruct S1 as [S1|S1]; [now left | right; split; [rewrite Ms1; exact Im|]; exists []; split; [constructor | exact L1]]. }
-    pose proof (loop_reach (bs c1) [EvS RGherkinDocument] stop (S (S (length toks))) _ _ I1) as L.
+    assert (I1 : InvR (bs c1) m [EvS RGherkinDocument] (start_state P) c1).
+    { destruct S1 as [S1|S1]; [now left | right; rewrite Ms1; split; [exact Im|]; exists []; split; [constructor | exact L1]]. }
+    pose proof (loop_reach (bs c1) m [EvS RGherkinDocument] stop (S (S (length toks))) _ _ I1) as L.
     destruct (loop P (S (S (length toks))) stop (start_state P) c1) as [s' c2| | | |]; cbn [bind] in H; try discriminate.
     simpl in L. destruct L as (I2 & Hfin & M2).
     set (c2' := emit (EvE RGherkinDocument) c2) in *.
@@ -275,7 +298,7 @@ Section PathReplay.
     destruct I2 as [I2|(_ & l & I2 & Hl)]; [congruence|].
     destruct Hfin as [Hfin|Hfin]; [|congruence].
     destruct S3 as [S3|S3]; [congruence|].
-    exists (bs c1), s', (bs c2), l. repeat split; auto.
+    exists (bs c1), s', (bs c2), l, (ms c2). repeat split; auto.
     unfold events. rewrite L3. unfold c2'. cbn [log emit]. rewrite Hl. cbn [rev]. rewrite rev_app_distr, rev_involutive. reflexivity.
   Qed.
 End PathReplay.
